@@ -79,6 +79,18 @@ def run_check(tier, seed, replay=None):
                     "the predictor no longer predicts what the frozen format (Match.tla) demands: %s on %s, parameters %s" % (
                         json.dumps(ev), x["reset"].get("label"), x["reset"].get("params")),
                     {"kind": "deflate-hex", "hex": case.get("hex"), "event": ev, "seed": seed})
+    # frozen explicit format: operation grammar, parameter header, tree prediction and the
+    # Huffman length calculation (Stream / Params / TreePredict / HuffCalc) on the current build
+    from stream_common import record_stream_traces, validate_stream_traces
+    str_tr = record_stream_traces(wd, tier, seed + 4, name="fmt")
+    for kind, x, case in validate_stream_traces(c, wd, str_tr):
+        if not same_versions:
+            continue
+        ev = x["event"]
+        c.violation("format:" + kind,
+                    "the current build no longer follows the frozen format specification (%s) at %s on %s" % (
+                        kind, json.dumps(ev)[:300], x["reset"].get("label")),
+                    {"kind": "deflate-hex", "hex": case.get("hex"), "event": ev, "seed": seed})
     for x in resets[:2] + resets[-2:]:
         c.sample({"kind": x["kind"], "label": x["label"], "len": x["len"]})
     return c.finish(rule="evaluations = objects (correction data of a stream, container of a file) written by the frozen "
